@@ -1,3 +1,51 @@
-From Coq Require Import List.
-Theorem C15_placeholder : True. Proof. exact I. Qed.
-Print Assumptions C15_placeholder.
+(* C15 — sampling draws from the distribution the circuit encodes
+   Property theorems only: each is closed by `exact <lemma>`; proofs live in the imported files. *)
+From Coq Require Import List ZArith QArith Qcanon Ring_theory Field_theory Permutation Sorted.
+Import ListNotations.
+From CK Require Import Base.
+From CK Require Import Circ.
+From CK Require Import Sampling.
+Close Scope Qc_scope. Close Scope Q_scope. Close Scope Z_scope. Open Scope nat_scope.
+
+(* for every ok circuit with univariate inputs over finite domains, the total weight of the ancestral-sampling outcomes consistent with an assignment equals the value of the circuit at that assignment, for every node and unit *)
+Theorem C15_sampling_law :
+  forall (R : Type) (rO rI : R) (radd rmul : R -> R -> R),
+         semi_ring_theory rO rI radd rmul eq ->
+         forall (D : Type) (eqD : D -> D -> bool),
+         (forall a b : D, eqD a b = true <-> a = b) ->
+         forall dom : nat -> list D,
+         (forall v : nat, NoDup (dom v)) ->
+         forall (y0 : asg D) (c : circuit R D),
+         ok R rO D c ->
+         univariate R D c ->
+         forall y : asg D,
+         in_domain D dom y ->
+         forall o k : nat,
+         o < length c ->
+         k < nth o (units R D c) 0 ->
+         mass R rO radd D eqD (nth k (nth o (dists R rO rI rmul D dom y0 c) []) []) y =
+         nth k (nth o (eval R rO radd rmul D c y) []) rO.
+Proof. exact sampling_law. Qed.
+Print Assumptions C15_sampling_law.
+
+(* every sampled value lies in the domain of its variable *)
+Theorem C15_support :
+  forall (R : Type) (rO rI : R) (rmul : R -> R -> R) (D : Type) (dom : nat -> list D) 
+           (y0 : asg D) (c : circuit R D) (o k : nat) (p : R * list (nat * D)),
+         In p (nth k (nth o (dists R rO rI rmul D dom y0 c) []) []) ->
+         forall q : nat * D, In q (snd p) -> In (snd q) (dom (fst q)).
+Proof. exact sampling_support. Qed.
+Print Assumptions C15_support.
+
+(* every outcome of a node assigns exactly the variables of that node's scope *)
+Theorem C15_columns :
+  forall (R : Type) (rO rI : R) (rmul : R -> R -> R) (D : Type) (dom : nat -> list D) 
+           (y0 : asg D) (c : circuit R D),
+         ok R rO D c ->
+         forall o k : nat,
+         o < length c ->
+         forall p : R * list (nat * D),
+         In p (nth k (nth o (dists R rO rI rmul D dom y0 c) []) []) ->
+         forall v : nat, In v (map fst (snd p)) <-> In v (nth o (scopes R D c) []).
+Proof. exact sampling_columns. Qed.
+Print Assumptions C15_columns.
